@@ -52,7 +52,8 @@ OUTSIDE = ["three or more deliveries; truncation combined with a split (thorough
            "malformed status lines / header sections (the skeleton is well-formed); several chunks; trailers",
            "pipelined bytes after a complete response at protocol level (HTTP11ClientProtocol ignores `rest`)",
            "request transmission (Request.writeTo is a stub that has finished): states TRANSMITTING*, abort(), cancel",
-           "the real transport: a fake records pause/resume/loseConnection and keeps delivering"]
+           "the real transport: a fake records pause/resume/loseConnection and keeps delivering (harness `paused`: a "
+           "fake that holds data back while paused and delivers 0..2 held-back segments from resumeProducing())"]
 ASSUMPTIONS = ["LBytes/LBuf reproduce bytes semantics for the operations used (differential selftest on every run); "
                "the lifted classes agree with the real ones on the concrete vectors (results and observation logs)",
                "HTTPParser.CONNECTION_CONTROL_HEADERS and Headers' dict are equality-lookup containers in the lifted "
@@ -466,6 +467,125 @@ def proto(shape: int, body: str, hv: str, k: int, split: int, late: bool, persis
     return pr.state == "CONNECTION_LOST"
 
 
+# ---- a transport that honours pauseProducing ---------------------------------------------------------------
+
+class _PausingTransport(_Transport):
+    """bytes 'from the network' are held back while the protocol has paused the transport; up to `burst` of
+    the held-back segments are handed to the protocol synchronously from inside resumeProducing() (what TLS
+    and other buffering transports do), the rest on the next reactor turn (pump)"""
+
+    def __init__(self, burst):
+        _Transport.__init__(self)
+        self.burst = burst
+        self.pending = []
+        self.paused = False
+        self.closed = False
+        self.proto = None
+
+    def pauseProducing(self):
+        self.ev.append("pause")
+        self.paused = True
+
+    def resumeProducing(self):
+        self.ev.append("resume")
+        self.paused = False
+        n = 0
+        while self.pending and not self.paused and n < self.burst:
+            n += 1
+            self._deliver(self.pending.pop(0))
+
+    def loseConnection(self):
+        self.ev.append("lose")
+        self.closed = True
+
+    def abortConnection(self):
+        self.ev.append("abort")
+        self.closed = True
+
+    def _deliver(self, seg):
+        if not self.closed:
+            self.proto.dataReceived(b(seg))
+
+    def feed(self, seg):
+        if self.paused or self.pending:
+            self.pending.append(seg)
+        else:
+            self._deliver(seg)
+
+    def pump(self):
+        while self.pending and not self.paused:
+            self._deliver(self.pending.pop(0))
+
+
+def _cuts(n):
+    return [0, 1, n // 2, n]
+
+
+def paused(shape: int, body: str, c1: int, c2: int, when: int, burst: int) -> bool:
+    """
+    pre: 0 <= shape <= 2 and len(body) == 2 and all(ord(c) < 256 for c in body)
+    pre: 0 <= c1 <= c2 <= 3 and 0 <= when <= 2 and 0 <= burst <= 2
+    post: _
+    """
+    # complete response (Content-Length / chunked / close-delimited) in up to three segments
+    # [head + wire[:a]] [wire[a:b]] [wire[b:]]; the application calls deliverBody() in the request callback
+    # (when == 0) or on a later turn, after `when` more segments reached the (paused) transport
+    sh = _pos(2, shape)
+    body = _chars(body)
+    method, head, wire, doff, kind = _build(sh, body, "x")
+    chead, cwire = _build(sh, "??", "x")[1:3]
+    if kind != "close":
+        wire, cwire = wire[:len(cwire) - 1], cwire[:-1]     # no pipelined byte here
+    hl, wl = len(chead), len(cwire)
+    cuts = _cuts(wl)
+    a = _pos(wl, cuts[_pos(3, c1)])
+    bb = _pos(wl, cuts[_pos(3, c2)])
+    wh = _pos(2, when)
+    stream = head + wire
+    segs = [stream[:hl + a]]
+    if bb > a:
+        segs.append(stream[hl + a:hl + bb])
+    if wl > bb:
+        segs.append(stream[hl + bb:hl + wl])
+    resp, fails = [], []
+    bp = _Body()
+    tr = _PausingTransport(_pos(2, burst))
+    qc = []
+
+    def onresp(r):
+        resp.append(r)
+        if wh == 0:
+            r.deliverBody(bp)
+
+    pr = L.HTTP11ClientProtocol(qc.append)
+    tr.proto = pr
+    pr.makeConnection(tr)
+    d = pr.request(_Request(method, True))
+    d.addCallbacks(onresp, lambda f: fails.append(f) and None)
+    delivered = wh == 0
+    for i, seg in enumerate(segs):
+        if not delivered and i >= wh and resp:
+            delivered = True
+            resp[0].deliverBody(bp)
+        tr.pump()
+        tr.feed(seg)
+    if not delivered and resp:
+        resp[0].deliverBody(bp)
+    tr.pump()
+    if tr.pending:
+        return False        # the transport was left paused although a consumer is attached
+    pr.connectionLost(Failure(ConnectionDone()))
+    api.obs((len(resp), len(fails), bp.data, len(bp.lost), tr.ev, len(qc), pr.state))
+    cover()
+    if not _expect(sh, body, "x", hl + wl, 0, resp, fails, bp, [], "proto"):
+        return False
+    if "".join(bp.data) != (wire if kind == "close" else body):
+        return False
+    if (len(qc) == 1) != (kind != "close") or "abort" in tr.ev or (qc and "lose" in tr.ev):
+        return False
+    return pr.state == "CONNECTION_LOST"
+
+
 def _shards_for(hname):
     def shards(tier):
         out = []
@@ -504,9 +624,12 @@ def _shards(tier):
 HARNESSES = [
     H(parser, shards=_shards_for("parser"), timeout={"quick": 200, "thorough": 1500}),
     H(proto, shards=_shards_for("proto"), timeout={"quick": 200, "thorough": 1500}),
+    H(paused, shards=[("shape == 0",), ("shape == 1",), ("shape == 2",)], timeout={"quick": 200, "thorough": 600}),
 ]
 
 VECTORS = {
+    "paused": [(0, "hi", 0, 3, 1, 2), (0, "hi", 1, 2, 2, 1), (1, "hi", 0, 2, 1, 1), (1, "ab", 2, 3, 2, 0),
+               (2, "zz", 0, 1, 1, 2), (2, "zz", 3, 3, 0, 0), (1, "hi", 0, 0, 2, 2), (0, "hi", 2, 2, 1, 0)],
     "parser": [(0, "hi", "x", -1, 0, False), (0, "hi", "x", 30, 0, True), (0, "", ":", -1, 20, False),
                (1, "\r\n", " ", -1, 50, False), (1, "ab", "x", 52, 0, False), (1, "", "x", -1, 3, True),
                (2, "zz", "\t", -1, 33, False), (2, "", "x", 10, 0, False), (3, "q", "x", -1, 24, False),
